@@ -472,10 +472,12 @@ class The(ResultQuantifier[T]):
     """
 
     def evaluate(self) -> TypingUnion[Iterable[T], T, UnificationDict]:
-        result = self._evaluate_()
-        result = self._process_result_(result)
         self._reset_cache_()
-        return result
+        try:
+            result = self._evaluate_()
+            return self._process_result_(result)
+        finally:
+            self._reset_cache_()
 
     def _evaluate__(self, sources: Optional[Dict[int, HashedValue]] = None, yield_when_false: bool = False) -> Iterable[Dict[int, HashedValue]]:
         v = self._evaluate_(sources, yield_when_false=yield_when_false)
@@ -496,14 +498,13 @@ class The(ResultQuantifier[T]):
                 result.update(sources)
             else:
                 raise MultipleSolutionFound(result, sol)
-        if result is None:
-            self._is_false_ = True
+        self._is_false_ = result is None
         if self._is_false_:
             if self._yield_when_false_:
                 result = sources
             else:
                 raise NoSolutionFound(self._child_)
-        else:
+        elif self._var_:
             result[self._id_] = result[self._var_._id_]
         return result
 
